@@ -9,9 +9,15 @@ HARNESSES = [
          bounds='up to 3 association instances, each of 4 classes (binary, its subclass, ternary, binary with optional/NULL ends) with any end points among 4 nodes (incl. both ends the same node); '
                 'every source node; AssocClass/ResultClass (6/4 values incl. subclass and case variants), Role/ResultRole (8 values incl. case variants and an unknown name)',
          quick=dict(timeout=70, parts=12, reach_timeout=60, reach_parts=12), thorough=dict(timeout=900, parts=24, reach_timeout=60, reach_parts=24)),
+    dict(name='H2-history-independence', engine='crosshair', module='c13_assoc', function='history', reach='history_reach', functions=_F,
+         stubs=['selectors realised, then the mock stack runs untraced (native speed)', 'pre-state restored by un-pickling'],
+         bounds='0..1 pre-existing association instance (any of the 501 slot codes), every source node, AssocClass/ResultClass filters (6/4 values), with or without a first (warming) query, '
+                'then one of 5 repository changes (new association subclass + instance, new node subclass / sub-subclass + linked instance, delete an association instance, add a subclass instance), then the four traversal operations',
+         quick=dict(timeout=60, parts=20, reach_timeout=40, reach_parts=20), thorough=dict(timeout=600, parts=20, reach_timeout=60, reach_parts=20)),
 ]
 CLAIM = dict(
     technique='solver-driven exploration (CrossHair/z3 enumerating symbolic adjacency/filter selectors) of the real association operations against the result computed directly from the adjacency',
     text='Association instances generated from symbolic slot codes are created on the real mock server; for a symbolic source and filter combination Associators/AssociatorNames/References/ReferenceNames must equal what the stored '
-         'instances imply per the property text, Names must equal the paths of the full results, filters may only remove results, the relation must be symmetric, and reading must not change later results.',
+         'instances imply per the property text, Names must equal the paths of the full results, filters may only remove results, the relation must be symmetric, and reading must not change later results. '
+         'H2: after a query and a repository change (new subclasses, added/deleted association instances) the answers must equal those of a fresh server holding the same final repository and must reflect the change.',
     note='Trusted: CrossHair/z3 as enumerator (the mock stack runs untraced). Class-level traversal, cross-namespace associations and graphs with more than 3 association instances are outside the bound of this harness.')
